@@ -349,7 +349,30 @@ def rule_recursive_read(cx, tier):
                 n_pairs += 1
                 r.instances += 1
                 h1 = handle_of_guard(g)
-                if h1 is None or h2 is None or h1 != h2:
+                if h1 is None or h2 is None:
+                    continue
+                if h1 != h2:
+                    # may-alias clause: two handles of the same container type that both come from outside (operands of
+                    # `l + l`, `l == l`) can be one container; only a dominating `is_same_instance` test on its false
+                    # outcome shows that they are not
+                    g_ty = shared[g][0]
+                    takes_same = any(T == g_ty and m == "shared" for (T, m) in bi.direct.get(t, ())) or \
+                        any(any(T == g_ty and m == "shared" for (T, m) in bi.direct.get(c2.resolved, ())) for c2 in tq.calls())
+                    from .memory import _is_fresh_local, _named_base
+                    b1 = _named_base(fn, du, op_base(du.single_def(g)[3].args[0])) if du.single_def(g) else None
+                    b2 = _named_base(fn, du, op_base(c.args[0]))
+                    if not takes_same or b1 is None or b2 is None or _is_fresh_local(fn, du, b1[1]) or \
+                            _is_fresh_local(fn, du, b2[1]) or _distinct_instances(cx, fn, g, c):
+                        continue
+                    # only handles of the same type can alias
+                    if (fn.local_tstr(b1[1]) or "").lstrip("&") != (fn.local_tstr(b2[1]) or "").lstrip("&"):
+                        continue
+                    r.nontrivial += 1
+                    r.add(Finding("R-RECURSIVE-READ", label, f"{h1}~{h2}:{tq.qual.rsplit('::', 1)[-1]}",
+                                  f"`{h2}.{tq.qual.rsplit('::', 1)[-1]}()` takes a read lock while a read guard of `{h1}` is held "
+                                  f"and nothing shows that `{h1}` and `{h2}` are different containers (`x + x`, `x == x`): if "
+                                  f"they are one container and a writer queues in between, reader and writer wait for each "
+                                  f"other", fn.file, c.line))
                     continue
                 r.nontrivial += 1
                 r.add(Finding("R-RECURSIVE-READ", label, f"{h1}:{tq.qual.rsplit('::', 1)[-1]}",
